@@ -204,6 +204,27 @@ def lookupSub (s : KSt) (fname : String) (args kwargs : Json) : Option (Op × KS
 
 def liftSp (s : KSt) (f : SpecSt → SpecSt) : KSt := { s with sp := f s.sp }
 
+/-- the state after the setup of `build_file path`.  `_make_room` / `_make_dirs`: leftovers that are
+    physically in the way of the target or of its parent directories are moved aside, so no record can
+    vouch for them any more -/
+def afterSetup (s : KSt) (sp1 : SpecSt) (path : Path) (made : List Path) : KSt :=
+  { s with sp := sp1, shelf := clearWay s.shelf path made }
+
+/-- the state in which the function of a `build_file` that is not served from the cache starts -/
+def missStart (s1 : KSt) (path : Path) (inv : Inv) : KSt :=
+  let sp1 := s1.sp
+  { s1 with
+    shelf := s1.shelf.erase path
+    sp := { sp1 with invLog := inv :: sp1.invLog } }
+
+def withSp (s : KSt) (sp : SpecSt) : KSt := { s with sp := sp }
+
+/-- the state in which a `subbuild` looks its key up / in which its function starts -/
+def subClaim (s : KSt) (key : H) : KSt :=
+  liftSp s fun sp => { sp with claimedSubs := key :: sp.claimedSubs }
+def subStart (s1 : KSt) (inv : Inv) : KSt :=
+  liftSp s1 fun sp => { sp with invLog := inv :: sp.invLog }
+
 /-- run a build function with the cache -/
 def run : Prog → Option Path → KSt → CallRes × KSt × List Op
   | .ret v, _, s =>
@@ -230,22 +251,17 @@ def run : Prog → Option Path → KSt → CallRes × KSt × List Op
       let (r, s', ops) := run (k (.error e)) t (liftSp s fun sp => Spec.setupFailState sp path e)
       (r, s', .buildFile path cmp fname args kwargs [] .null .null true true "" :: ops)
     | .ok (sp1, made) =>
-      -- `_make_room` / `_make_dirs`: leftovers that are physically in the way of the target or of its
-      -- parent directories are moved aside, so no record can vouch for them any more
-      let s1 := { s with sp := sp1, shelf := clearWay s.shelf path made }
+      let s1 := afterSetup s sp1 path made
       match lookupFile s1 path cmp fname args kwargs made with
       | some (op, s2) =>
         let ret := match op with | .buildFile _ _ _ _ _ _ r _ _ _ _ => r | _ => .null
         let (r, s3, ops) := run (k (.ok ret)) t s2
         (r, s3, op :: ops)
       | none =>
-        let sp1 := s1.sp
-        let s1 := { s1 with
-          shelf := s1.shelf.erase path
-          sp := { sp1 with invLog := ⟨fname, some path, args, kwargs⟩ :: sp1.invLog } }
+        let s1 := missStart s1 path ⟨fname, some path, args, kwargs⟩
         let (rb, s2, subs) := run body (some path) s1
         let (r', sp3) := Spec.bfFinish s2.sp path made rb
-        let s3 := { s2 with sp := sp3 }
+        let s3 := withSp s2 sp3
         let op := match r' with
           | .ok j =>
             let content := match s3.sp.fs.get path with | some (.file b _) => b | _ => ""
@@ -265,14 +281,14 @@ def run : Prog → Option Path → KSt → CallRes × KSt × List Op
       let (r, s', ops) := run (k (.error (.os .other))) t (liftSp s fun sp => Spec.consumeSubFault sp key)
       (r, s', .subbuild fname args kwargs [] .null true true :: ops)
     else
-      let s1 := liftSp s fun sp => { sp with claimedSubs := key :: sp.claimedSubs }
+      let s1 := subClaim s key
       match lookupSub s1 fname args kwargs with
       | some (op, s2) =>
         let ret := match op with | .subbuild _ _ _ _ r _ _ => r | _ => .null
         let (r, s3, ops) := run (k (.ok ret)) t s2
         (r, s3, op :: ops)
       | none =>
-        let s1 := liftSp s1 fun sp => { sp with invLog := ⟨fname, none, args, kwargs⟩ :: sp.invLog }
+        let s1 := subStart s1 ⟨fname, none, args, kwargs⟩
         let (rb, s2, subs) := run body none s1
         let op := match rb with
           | .ok j => Op.subbuild fname args kwargs subs j false false
@@ -310,6 +326,8 @@ structure KOut where
   invLog : List Inv := []
   /-- the cache written by this call, if it committed -/
   written : Option CacheRec := none
+  /-- ghost: the paths passed to `build_file` in a build that committed -/
+  claimed : List Path := []
 deriving Inhabited
 
 namespace Impl
@@ -319,44 +337,58 @@ def isComplexRegistered : Op → Bool
   | .subbuild _ _ _ _ _ _ sf => !sf
   | .simple _ _ _ _ => false
 
+/-- the state in which the root function starts: the previous build's outputs, cache file and emptied
+    directories virtually gone (`preClean`), the outputs still lying on the shelf, the directories for the
+    cache file made -/
+def buildStart (w : KWorld) (cf : Path) (versions : List (String × Json)) (failFiles : List Path)
+    (failSubs : List H) (old : CacheRec) (cds : List Path) : KSt :=
+  let oldRec := old.toRec
+  let shelf : FS := oldRec.outputs.filterMap fun p =>
+    match w.fs.get p with
+    | some (.file b m) => some (p, .file b m)
+    | _ => none
+  { sp := { fs := Spec.mkdirs (Spec.preClean w.fs cf oldRec) cds, cacheFile := cf, dirSize := w.dirSize,
+            clock := w.clock, failFiles := failFiles, failSubs := failSubs },
+    shelf := shelf, old := old, newVersions := versions }
+
+/-- a build once the old cache (possibly empty) has been read -/
+def buildGo (w : KWorld) (cf : Path) (buildName : String) (versions : List (String × Json))
+    (root : Prog) (failFiles : List Path) (failSubs : List H) (abort : Nat) (old : CacheRec) : KOut :=
+  let oldRec := old.toRec
+  let fs0 := Spec.preClean w.fs cf oldRec
+  let sp0 : SpecSt := { fs := fs0, cacheFile := cf, dirSize := w.dirSize, clock := w.clock,
+                        failFiles := failFiles, failSubs := failSubs }
+  let rolledBack : FS := Spec.mkdirs w.fs (old.createdDirs.mergeSort (fun a b => a.length ≤ b.length))
+  match (if abort = 1 then .error .other else Spec.dirsToMake (Spec.visible sp0) cf [] cf.dropLast) with
+  | .error e => { res := .error (.os e), world := { w with fs := rolledBack } }
+  | .ok cds =>
+    let s1 : KSt := buildStart w cf versions failFiles failSubs old cds
+    let (r0, s2, ops) := run root none s1
+    let r : CallRes := match r0 with | .ok v => if abort = 2 then .error (.os .other) else .ok v | e => e
+    match r with
+    | .error e => { res := .error e, world := { w with fs := rolledBack, clock := s2.sp.clock },
+                    invLog := s2.sp.invLog.reverse }
+    | .ok v =>
+      let created := Spec.dedup (s2.sp.createdDirs.reverse ++ cds)
+      let rec_ : CacheRec :=
+        { buildName := buildName, roots := ops.filter isComplexRegistered, createdDirs := created, versions := versions }
+      let n := w.nextSerial
+      let fs' := s2.sp.fs.write cf (cacheToken n) 0
+      { res := .ok v,
+        world := { w with fs := fs', recs := (n, rec_) :: w.recs, nextSerial := n + 1, clock := s2.sp.clock },
+        invLog := s2.sp.invLog.reverse, written := some rec_, claimed := s2.sp.claimedFiles }
+
 /-- `FileBuilder.build_versioned` -/
 def build (w : KWorld) (cf : Path) (buildName : String) (versions : List (String × Json))
     (root : Prog) (failFiles : List Path := []) (failSubs : List H := []) (abort : Nat := 0) : KOut :=
   let refuse (e : Exc) : KOut := { res := .error e, world := w }
-  let go (old : CacheRec) : KOut :=
-    let oldRec := old.toRec
-    let fs0 := Spec.preClean w.fs cf oldRec
-    let shelf : FS := oldRec.outputs.filterMap fun p =>
-      match w.fs.get p with
-      | some (.file b m) => some (p, .file b m)
-      | _ => none
-    let sp0 : SpecSt := { fs := fs0, cacheFile := cf, dirSize := w.dirSize, clock := w.clock,
-                          failFiles := failFiles, failSubs := failSubs }
-    let rolledBack : FS := Spec.mkdirs w.fs (old.createdDirs.mergeSort (fun a b => a.length ≤ b.length))
-    match (if abort = 1 then .error .other else Spec.dirsToMake (Spec.visible sp0) cf [] cf.dropLast) with
-    | .error e => { res := .error (.os e), world := { w with fs := rolledBack } }
-    | .ok cds =>
-      let s1 : KSt :=
-        { sp := { sp0 with fs := Spec.mkdirs sp0.fs cds }, shelf := shelf, old := old, newVersions := versions }
-      let (r0, s2, ops) := run root none s1
-      let r : CallRes := match r0 with | .ok v => if abort = 2 then .error (.os .other) else .ok v | e => e
-      match r with
-      | .error e => { res := .error e, world := { w with fs := rolledBack, clock := s2.sp.clock },
-                      invLog := s2.sp.invLog.reverse }
-      | .ok v =>
-        let created := Spec.dedup (s2.sp.createdDirs.reverse ++ cds)
-        let rec_ : CacheRec :=
-          { buildName := buildName, roots := ops.filter isComplexRegistered, createdDirs := created, versions := versions }
-        let n := w.nextSerial
-        let fs' := s2.sp.fs.write cf (cacheToken n) 0
-        { res := .ok v,
-          world := { w with fs := fs', recs := (n, rec_) :: w.recs, nextSerial := n + 1, clock := s2.sp.clock },
-          invLog := s2.sp.invLog.reverse, written := some rec_ }
   match w.cacheState cf with
   | .isDir => refuse (.os .isADir)
   | .corrupt => refuse (.runtime .corrupt)
-  | .absent => go { buildName := buildName, versions := versions }
-  | .valid r => if r.buildName = buildName then go r else refuse (.runtime .nameMismatch)
+  | .absent => buildGo w cf buildName versions root failFiles failSubs abort { buildName := buildName, versions := versions }
+  | .valid r =>
+    if r.buildName = buildName then buildGo w cf buildName versions root failFiles failSubs abort r
+    else refuse (.runtime .nameMismatch)
 
 /-- `FileBuilder.clean` -/
 def clean (w : KWorld) (cf : Path) (buildName : Option String) : KOut :=
